@@ -24,9 +24,9 @@ def regen(ctx):
 
 
 SPEC = {
-    "lean_props": ["Hive.Props.C16", "Hive.Props.C16Old"],
+    "lean_props": ["Hive.Props.C16", "Hive.Props.C16Old", "Hive.Props.C16Var"],
     "regen": regen,
-    "lean_namespace": ["Hive.WP", "Hive.WPG", "Hive.WPOld"],
+    "lean_namespace": ["Hive.WP", "Hive.WPG", "Hive.WPOld", "Hive.WPVar"],
     "driver": "drv_c16",
     "harness": "c16",
     "harness_timeout": {"quick": 1500, "thorough": 6000},
@@ -34,7 +34,8 @@ SPEC = {
     "theorems": ["C16_conservation", "C16_no_run_after_shutdown_complete", "C16_shutdown_terminates", "C16_exactly_once",
                  "C16_start_spawns_clean", "C16_group_wait", "C16_forced_schedules_example", "C16_group_example",
                  "C16_old_submit_window_lost_witness", "C16_old_submit_window_hang_witness", "C16_old_signal_lost_witness",
-                 "C16_old_start_witness", "C16_old_start_race_witness",
+                 "C16_old_start_witness", "C16_old_start_race_witness", "C16_haswork_order_witness", "C16_signal_one_witness",
+                 "C16_foreign_waiters_example",
                  "C16_skeleton_WorkerPool_Start", "C16_skeleton_WorkerPool_startIfStopped", "C16_skeleton_WorkerPool_Submit", 
                  "C16_skeleton_WorkerPool_increasePendingTasksIfRunning", "C16_skeleton_WorkerPool_decreasePendingTasks", "C16_skeleton_WorkerPool_hasWork", 
                  "C16_skeleton_WorkerPool_IsRunning", "C16_skeleton_WorkerPool_Shutdown", "C16_skeleton_WorkerPool_stop", 
@@ -55,7 +56,7 @@ SPEC = {
         "NOT modelled: workerCount 0, panicking task functions, DebounceFunc, debug deadlock detection, Go's 'WaitGroup is reused before previous Wait has returned' panic, Group.Shutdown's isShutdown flag",
         "Counter.Update with its subscriber chain and Start's spawn under the write lock are single atomic steps (justified by the locks held; see Hive/Model/WorkerPool.lean, Hive/Model/WorkerPoolGroup.lean)"],
     "manifest": {
-        "text": "Lean theorems over every worker count >= 1, cancel-on-shutdown on/off, any number of client threads with arbitrary scripts of Submit (tasks submitting tasks to any depth) / Shutdown / Start / ShutdownComplete.Wait / WaitIsZero and every interleaving (invariants over all reachable configurations of a protocol model whose state contains the pool's own goroutines): C16_conservation (every trace satisfies the C16 trace predicate: each task decided/run/marked done at most once, never run when rejected, counter = accepted - finished in unit steps, decreases accounted for by finished runs or - cancel-on-shutdown after a Shutdown call - by tasks that never ran), C16_no_run_after_shutdown_complete, C16_shutdown_terminates (FULL strength, no schedule hypothesis: every reachable configuration in which nobody can move has counter 0, every call returned except ShutdownComplete waits on a pool that runs again, and no live goroutine in a stopped pool; C16_exactly_once: accepted = finished), C16_group_wait (group counter = number of children with a non-zero counter; WaitChildren returns only when every pool below is at zero, arbitrary trees). Four defects were found, replayed on the real code through verif hooks and FIXED (b9bfa1a Shutdown();Start() deadlock, 9b2668a Submit window, a0dbad3 lost SignalShutdown wake-up, 1119368 Start overtaken by a restart); the old behaviour is kept as C16_old_*_witness over a frozen model of the old code. Tie: 27 regenerated synchronisation skeletons as decide-obligations; event traces of real goroutines (5 hook-forced schedules, deterministic life cycles, stress over W 1..4 x cancel x modes x nesting; group trees) judged line by line by the Lean trace predicate and by an independent Go monitor; forced-schedule outcomes must equal the model's; independent Go oracle (per-task run counts, counter at quiescence, bounded waits).",
+        "text": "Lean theorems over every worker count >= 1, cancel-on-shutdown on/off, any number of client threads with arbitrary scripts of Submit (tasks submitting tasks to any depth) / Shutdown / Start / ShutdownComplete.Wait / WaitIsZero and every interleaving (invariants over all reachable configurations of a protocol model whose state contains the pool's own goroutines): C16_conservation (every trace satisfies the C16 trace predicate: each task decided/run/marked done at most once, never run when rejected, counter = accepted - finished in unit steps, decreases accounted for by finished runs or - cancel-on-shutdown after a Shutdown call - by tasks that never ran), C16_no_run_after_shutdown_complete, C16_shutdown_terminates (FULL strength, no schedule hypothesis: every reachable configuration in which nobody can move has counter 0, every call returned except ShutdownComplete waits on a pool that runs again, and no live goroutine in a stopped pool; C16_exactly_once: accepted = finished), C16_group_wait (group counter = number of children with a non-zero counter; WaitChildren returns only when every pool below is at zero, arbitrary trees). Four defects were found, replayed on the real code through verif hooks and FIXED (b9bfa1a Shutdown();Start() deadlock, 9b2668a Submit window, a0dbad3 lost SignalShutdown wake-up, 1119368 Start overtaken by a restart); the old behaviour is kept as C16_old_*_witness over a frozen model of the old code. The model reads isRunning before the pending counter as two steps (a swapped order loses a task: C16_haswork_order_witness) and carries an arbitrary number of foreign Queue.WaitSizeIsAbove waiters on elementAdded (Signal instead of Broadcast fails: C16_signal_one_witness). Tie: 27 regenerated synchronisation skeletons as decide-obligations; event traces of real goroutines (7 hook-forced schedules, foreign queue waiters, worker counts up to 3*NumCPU, group pools with explicit options, deterministic life cycles, stress over W 1..4 x cancel x modes x nesting; group trees) judged line by line by the Lean trace predicate and by an independent Go monitor; forced-schedule outcomes must equal the model's; independent Go oracle (per-task run counts, counter at quiescence, bounded waits).",
         "note": "Trusted: Lean kernel; hand-written model Hive/Model/WorkerPool*.lean (tied by skeleton obligations + trace conformance + forced schedules, not by translation); Go sync primitive semantics as written in the model; atomicity of Counter.Update+subscribers and of Start's spawn; queue/channel order abstracted; worker count 0 and panicking tasks outside the model. After 9b2668a Counter.Increase and its subscribers run under the pool read lock (a subscriber must not call back into the pool).",
         "technique": "Lean 4 invariant proofs over an interleaving protocol model (arbitrary thread pool, all schedules) + decidable trace predicates evaluated on recorded traces of the implementation + hook-forced witness schedules + regenerated sync skeletons",
     },
